@@ -217,6 +217,7 @@ NATURAL = [
     ("pathmissingdir", {"out": 7, "pathmode": "missing"}, -E.ENOENT),
     ("pathisdir", {"out": 7, "pathmode": "dir"}, -E.EISDIR),
     ("closedhandle", {"in": 5, "handlemode": "closed"}, -E.EBADF),
+    ("argtoolong", {"bigarg": 200000}, -E.E2BIG),
 ]
 
 
